@@ -321,6 +321,22 @@ class Gen:
         self.vars = {k: (saved[k] if self.vars.get(k) == saved[k] else "?") for k in saved}
         return [{"h": head, "b": b, "m": [], "e": "end"}]
 
+    def s_union_block(self, depth):
+        """A block with parameters on a receiver that is a union of two enumerable kinds; the parameter is printed inside the block
+        (its type comes from per-call resolution state, not from one configured method)."""
+        v = self.fresh("local")
+        p = self.fresh("blk")
+        a, b = self.pick([("[1, 2]", "(1..3)"), ("[1]", "{a: 1}"), ('["a"]', "(1..2)"), ("[1, 2]", '["s"]'), ("{a: 1}", "(1..3)")])
+        self.vars[v] = "?"
+        meth = self.pick(["each", "each", "map", "select", "each_with_index"])
+        params = p if meth != "each_with_index" else "%s, %s" % (p, self.fresh("blk"))
+        out = [{"t": "%s = true ? %s : %s" % (v, a, b)}]
+        if self.chance(0.5):
+            out.append({"t": "%s.%s { |%s| dbtp %s }" % (v, meth, params, p)})
+        else:
+            out.append({"h": "%s.%s do |%s|" % (v, meth, params), "b": [{"t": "dbtp %s" % p}], "m": [], "e": "end"})
+        return out
+
     def s_times(self, depth):
         p = self.fresh("blk")
         saved = dict(self.vars)
@@ -677,6 +693,8 @@ class Gen:
                 return self.s_yield_method(depth)
             if k == 9 and top:
                 return self.s_heredoc()
+            if k == 10:
+                return self.s_union_block(depth)
         if r % 7 == 0:
             return self.s_string_ml()
         return self.s_assign()
